@@ -1,12 +1,269 @@
-import JunoModel.C03.Proofs
+import JunoModel.C03.ProofsNode
+import JunoModel.C03.ProofsLegacy
 /-!
 C03 — property theorems (statements only; helper lemmas are in `Proofs*.lean`).
+
+Reading guide. `run be (Node.init be) ops = some nd`: the history `ops` (block additions and head
+reverts) ran on a fresh node and left `nd`; a history on which the real node fails (a guard of
+`Update`/`Revert` fires) is not a history of the property. `OpsWF ops`: every stored diff is a
+well-formed state diff (`Diff.WF`: sections are maps, no contract deployed and replaced by the same
+diff, system contracts only receive storage writes). `nd.chain`: the state diffs of the blocks the
+node holds, newest first; `absAt nd.chain n` the abstract state after block `n` = fold of the
+diffs `0..n` (`absOf`), `AbsSt.read` the answer the property demands: the value, not-found for
+contracts / classes that do not exist yet. `q.ordinary`: the query is about a contract that
+enters the state through `DeployedContracts`, or about a class; the system contracts 0x1/0x2
+(existence implementation defined) have their own theorems.
 -/
 namespace Juno.C03.Props
 open Juno.C03
 
-/-- Buckets behave as maps: a read after a write/delete sees it, other keys are untouched. -/
-theorem bucket_get_set {κ β : Type} [DecidableEq κ] (m : Bucket κ β) (k x : κ) (v : Option β) :
-    bget (bset m k v) x = if x = k then v else bget m x := bget_bset m k x v
+/-- The chain a node holds is the one the history says: stores push, reverts pop. -/
+theorem run_chain {σ : Type} (be : Backend σ) (ops : List Op) (nd : Node σ)
+    (hrun : run be (Node.init be) ops = some nd) : nd.chain = chainOf ops := by
+  have := run_blocks be ops (Node.init be) nd hrun
+  simp [Node.chain, chainOf, this, Node.init]
+
+/-- NEW BACKEND, views by number: after any history, for every retained block `n`, every contract
+address / slot / class hash: the historical reader answers exactly what the state diffs up to
+and including block `n` give. Holds for every variant `cfg` of the code. -/
+theorem new_read_correct (cfg : Cfg) (ops : List Op) (nd : Node NState)
+    (hrun : run (newBackend cfg) (Node.init (newBackend cfg)) ops = some nd) (hwf : OpsWF ops)
+    (n : Nat) (hn : n < nd.blocks.length) (q : Query) (hq : q.ordinary) :
+    nd.read (newBackend cfg) (.num n) q = some ((absAt nd.chain n).read q) := by
+  have hinv := run_invariant (newBackend cfg) (NInv cfg)
+    (fun ch s s' d hI hd hu => ninv_store cfg ch s s' d hI hd hu)
+    (fun d rest s s' hI hr => ninv_revert cfg d rest s s' hI hr)
+    ops (Node.init (newBackend cfg)) nd (ninv_init cfg) hwf hrun
+  simp only [Node.read, Node.resolve, hn, if_true]
+  exact congrArg some (ninv_histRead cfg nd.chain nd.st hinv n q hq)
+
+/-- NEW BACKEND, head view: class hash, nonce and declared classes are those of the abstract state
+after the last block (not-found when absent); a storage slot reads as its value — zero when unset,
+also for an address without contract (juno's `StateReader.ContractStorage` contract; the RPC layer
+asks for the class hash first). The storage part needs the repaired trie (`leafFix`), see
+`new_head_storage_asFound_counterexample`. -/
+theorem new_head_read_correct (cfg : Cfg) (ops : List Op) (nd : Node NState)
+    (hrun : run (newBackend cfg) (Node.init (newBackend cfg)) ops = some nd) (hwf : OpsWF ops)
+    (hne : nd.blocks ≠ []) :
+    (∀ a, isSystem a = false →
+      nd.read (newBackend cfg) .head (.classHash a) = some ((absOf nd.chain).read (.classHash a)) ∧
+      nd.read (newBackend cfg) .head (.nonce a) = some ((absOf nd.chain).read (.nonce a))) ∧
+    (∀ c, nd.read (newBackend cfg) .head (.cls c) = some ((absOf nd.chain).read (.cls c))) ∧
+    (cfg.leafFix = true → ∀ a k,
+      nd.read (newBackend cfg) .head (.storage a k) = some (.ok ((absOf nd.chain).stor a k))) := by
+  have hinv := run_invariant (newBackend cfg) (NInv cfg)
+    (fun ch s s' d hI hd hu => ninv_store cfg ch s s' d hI hd hu)
+    (fun d rest s s' hI hr => ninv_revert cfg d rest s s' hI hr)
+    ops (Node.init (newBackend cfg)) nd (ninv_init cfg) hwf hrun
+  have hemp : nd.blocks.isEmpty = false := by cases h : nd.blocks <;> simp_all
+  refine ⟨?_, ?_, ?_⟩
+  · intro a ha
+    simp only [Node.read, Node.resolve, hemp, Bool.false_eq_true, if_false]
+    exact ⟨congrArg some ((ninv_headRead cfg nd.chain nd.st hinv (.classHash a)).1 a rfl ha),
+      congrArg some ((ninv_headRead cfg nd.chain nd.st hinv (.nonce a)).2.1 a rfl ha)⟩
+  · intro c
+    simp only [Node.read, Node.resolve, hemp, Bool.false_eq_true, if_false]
+    exact congrArg some ((ninv_headRead cfg nd.chain nd.st hinv (.cls c)).2.2.2 c rfl)
+  · intro hfix a k
+    simp only [Node.read, Node.resolve, hemp, Bool.false_eq_true, if_false]
+    exact congrArg some ((ninv_headRead cfg nd.chain nd.st hinv (.storage a k)).2.2.1 a k rfl hfix)
+
+/- Full-strength statement for the system contracts (what `legacy_system_storage_read` proves for
+the legacy backend):
+    (absAt nd.chain n).stor a k ≠ 0 → nd.read (newBackend cfg) (.num n) (.storage a k) = some (.ok …)
+It is FALSE for the code as found (`cfg.sysProbeFix = false`): `new_system_asFound_counterexample`.
+Proved below: never a wrong value (every variant), and the full statement for the variant with
+proposed-fixes/C03-history-system-contract-no-deploy-probe.diff. Missing for the code as found: the
+full statement under the hypothesis that no block of the history empties the storage of a system
+contract (then `commit` never deletes a record that older blocks need). -/
+
+/-- NEW BACKEND, system contracts 0x1/0x2, views by number: a storage read never returns a wrong
+value (it is the value the diffs give, or not-found), in every variant; in the variant without the
+deployment probe for system contracts (`sysProbeFix`) it is always the value. -/
+theorem new_system_storage_read_partial (cfg : Cfg) (ops : List Op) (nd : Node NState)
+    (hrun : run (newBackend cfg) (Node.init (newBackend cfg)) ops = some nd) (hwf : OpsWF ops)
+    (n : Nat) (hn : n < nd.blocks.length) (a : Addr) (k : Slot) :
+    (nd.read (newBackend cfg) (.num n) (.storage a k) = some .notfound ∨
+      nd.read (newBackend cfg) (.num n) (.storage a k) = some (.ok ((absAt nd.chain n).stor a k))) ∧
+    (cfg.sysProbeFix = true → isSystem a = true →
+      nd.read (newBackend cfg) (.num n) (.storage a k) = some (.ok ((absAt nd.chain n).stor a k))) := by
+  have hinv := run_invariant (newBackend cfg) (NInv cfg)
+    (fun ch s s' d hI hd hu => ninv_store cfg ch s s' d hI hd hu)
+    (fun d rest s s' hI hr => ninv_revert cfg d rest s s' hI hr)
+    ops (Node.init (newBackend cfg)) nd (ninv_init cfg) hwf hrun
+  have h := ninv_histRead_system cfg nd.chain nd.st hinv n a k
+  simp only [Node.read, Node.resolve, hn, if_true]
+  refine ⟨?_, ?_⟩
+  · rcases h.1 with e | e
+    · left; exact congrArg some e
+    · right; exact congrArg some e
+  · intro h1 h2; exact congrArg some (h.2 h1 h2)
+
+/-- LEGACY BACKEND, views by number: after any history, for every retained block `n`, every
+contract address / slot / class hash: the historical reader (first log strictly above `n`, else
+the head value; deployment height; declaration height) answers exactly what the state diffs up to
+and including block `n` give. The invariant behind it (`LInv`): every change of a key at block b
+has a log at b holding the value before b; the only writes without log are zero written to an
+unset slot (no change) and the class hash set by a deployment (masked by the deployment height). -/
+theorem legacy_read_correct (ops : List Op) (nd : Node LState)
+    (hrun : run legacyBackend (Node.init legacyBackend) ops = some nd) (hwf : OpsWF ops)
+    (n : Nat) (hn : n < nd.blocks.length) (q : Query) (hq : q.ordinary) :
+    nd.read legacyBackend (.num n) q = some ((absAt nd.chain n).read q) := by
+  have hinv := run_invariant legacyBackend LInv
+    (fun ch s s' d hI hd hu => linv_store ch s s' d hI hd hu)
+    (fun d rest s s' hI hr => linv_revert d rest s s' hI hr)
+    ops (Node.init legacyBackend) nd linv_init hwf hrun
+  simp only [Node.read, Node.resolve, hn, if_true]
+  exact congrArg some (linv_histRead nd.chain nd.st hinv n q hq)
+
+/-- LEGACY BACKEND, head view: as `new_head_read_correct`, the storage part without condition. -/
+theorem legacy_head_read_correct (ops : List Op) (nd : Node LState)
+    (hrun : run legacyBackend (Node.init legacyBackend) ops = some nd) (hwf : OpsWF ops)
+    (hne : nd.blocks ≠ []) :
+    (∀ a, isSystem a = false →
+      nd.read legacyBackend .head (.classHash a) = some ((absOf nd.chain).read (.classHash a)) ∧
+      nd.read legacyBackend .head (.nonce a) = some ((absOf nd.chain).read (.nonce a))) ∧
+    (∀ c, nd.read legacyBackend .head (.cls c) = some ((absOf nd.chain).read (.cls c))) ∧
+    (∀ a k, nd.read legacyBackend .head (.storage a k) = some (.ok ((absOf nd.chain).stor a k))) := by
+  have hinv := run_invariant legacyBackend LInv
+    (fun ch s s' d hI hd hu => linv_store ch s s' d hI hd hu)
+    (fun d rest s s' hI hr => linv_revert d rest s s' hI hr)
+    ops (Node.init legacyBackend) nd linv_init hwf hrun
+  have hemp : nd.blocks.isEmpty = false := by cases h : nd.blocks <;> simp_all
+  have h := linv_headRead nd.chain nd.st hinv
+  refine ⟨?_, ?_, ?_⟩
+  · intro a ha
+    simp only [Node.read, Node.resolve, hemp, Bool.false_eq_true, if_false]
+    exact ⟨congrArg some (h.1 a ha).1, congrArg some (h.1 a ha).2⟩
+  · intro c
+    simp only [Node.read, Node.resolve, hemp, Bool.false_eq_true, if_false]
+    exact congrArg some (h.2.2 c)
+  · intro a k
+    simp only [Node.read, Node.resolve, hemp, Bool.false_eq_true, if_false]
+    exact congrArg some (h.2.1 a k)
+
+/-- LEGACY BACKEND, any address including the system contracts 0x1/0x2, views by number: a slot
+that is non-zero after block `n` is returned as it is; a zero slot reads as zero or not-found. -/
+theorem legacy_system_storage_read (ops : List Op) (nd : Node LState)
+    (hrun : run legacyBackend (Node.init legacyBackend) ops = some nd) (hwf : OpsWF ops)
+    (n : Nat) (hn : n < nd.blocks.length) (a : Addr) (k : Slot) :
+    ((absAt nd.chain n).stor a k ≠ 0 →
+      nd.read legacyBackend (.num n) (.storage a k) = some (.ok ((absAt nd.chain n).stor a k))) ∧
+    (nd.read legacyBackend (.num n) (.storage a k) = some .notfound ∨
+      nd.read legacyBackend (.num n) (.storage a k) = some (.ok ((absAt nd.chain n).stor a k))) := by
+  have hinv := run_invariant legacyBackend LInv
+    (fun ch s s' d hI hd hu => linv_store ch s s' d hI hd hu)
+    (fun d rest s s' hI hr => linv_revert d rest s s' hI hr)
+    ops (Node.init legacyBackend) nd linv_init hwf hrun
+  have h := linv_histRead_storage_any nd.chain nd.st hinv n a k
+  simp only [Node.read, Node.resolve, hn, if_true]
+  refine ⟨fun hz => congrArg some (h.1 hz), ?_⟩
+  rcases h.2 with e | e
+  · left; exact congrArg some e
+  · right; exact congrArg some e
+
+/-- The two backends answer alike: the same history run on a legacy node and on a new node (any
+variant) gives the same answer for every retained block and every ordinary query. -/
+theorem backends_agree_reads (cfg : Cfg) (ops : List Op) (nl : Node LState) (nn : Node NState)
+    (hl : run legacyBackend (Node.init legacyBackend) ops = some nl)
+    (hnw : run (newBackend cfg) (Node.init (newBackend cfg)) ops = some nn) (hwf : OpsWF ops)
+    (n : Nat) (hn : n < (chainOf ops).length) (q : Query) (hq : q.ordinary) :
+    nl.read legacyBackend (.num n) q = nn.read (newBackend cfg) (.num n) q := by
+  have cl := run_chain legacyBackend ops nl hl
+  have cn := run_chain (newBackend cfg) ops nn hnw
+  have hnl : n < nl.blocks.length := by
+    have : nl.blocks.length = nl.chain.length := by simp [Node.chain]
+    rw [this, cl]; exact hn
+  have hnn : n < nn.blocks.length := by
+    have : nn.blocks.length = nn.chain.length := by simp [Node.chain]
+    rw [this, cn]; exact hn
+  rw [legacy_read_correct ops nl hl hwf n hnl q hq, new_read_correct cfg ops nn hnw hwf n hnn q hq, cl, cn]
+
+/-- Views by hash (any backend): the view of a stored block hash is the view of that block's
+number; a hash the node does not hold (never stored, or reverted) has no view; a number above the
+head has no view. With unique block hashes the hash of block `k` resolves to `k`
+(`numberOf_getElem`). -/
+theorem read_by_hash_spec {σ : Type} (be : Backend σ) (nd : Node σ) (q : Query) :
+    (∀ h k, numberOf nd.blocks h = some k → nd.read be (.hash h) q = nd.read be (.num k) q) ∧
+    (∀ h, h ∉ nd.blocks.map (·.1) → nd.read be (.hash h) q = none) ∧
+    (∀ n, nd.blocks.length ≤ n → nd.read be (.num n) q = none) := by
+  refine ⟨?_, ?_, ?_⟩
+  · intro h k e; rw [read_by_hash, e]; rfl
+  · intro h hm; rw [read_by_hash, (numberOf_none_iff nd.blocks h).mpr hm]; rfl
+  · intro n hn
+    have : ¬ n < nd.blocks.length := by omega
+    simp [Node.read, Node.resolve, this]
+
+/-- the hash of block `k` resolves to `k` when the block hashes on the node are distinct -/
+theorem hash_resolves (bs : List (BlockId × Diff)) (hnd : (bs.map (·.1)).Nodup) (k : Nat) (hk : k < bs.length) :
+    numberOf bs (bs[bs.length - 1 - k]'(by omega)).1 = some k := numberOf_getElem bs hnd k hk
+
+/-! ### the code as found: counterexamples (defects of juno, replayed on the real code by the harness) -/
+
+private def dStore (st : List (Addr × List (Slot × Val))) (dep : List (Addr × CHash)) : Diff :=
+  { Diff.empty with storage := st, deployed := dep }
+
+/-- block 0: deploy A with slot 2 = 1; block 1: slot 3 = 4; block 2: slot 3 = 0 -/
+def staleLeafHistory : List Op :=
+  [.store 1 (dStore [(0x104, [(2, 1)])] [(0x104, 0xc000)]),
+   .store 2 (dStore [(0x104, [(3, 4)])] []),
+   .store 3 (dStore [(0x104, [(3, 0)])] [])]
+
+/-- DEFECT (core/trie2 `Trie.delete`, fixed by b4efaf4): as found, the head view returns 4 for a slot
+whose value is 0 — the full-strength head statement fails without `leafFix`. -/
+theorem new_head_storage_asFound_counterexample :
+    (run (newBackend Cfg.asFound) (Node.init (newBackend Cfg.asFound)) staleLeafHistory).map
+      (fun nd => (nd.read (newBackend Cfg.asFound) .head (.storage 0x104 3), (absOf nd.chain).stor 0x104 3)) =
+      some (some (.ok 4), 0) := by decide
+
+/-- block 0: 0x1[2] = 5; block 1: 0x1[2] = 0 (the storage of the system contract is empty again) -/
+def drainHistory : List Op :=
+  [.store 1 (dStore [(1, [(2, 5)])] []), .store 2 (dStore [(1, [(2, 0)])] [])]
+
+/-- DEFECT (core/state `commit` purges a system contract whose storage became empty, also during
+`Update`, and `checkDeployed` then finds no record): as found, the view of block 0 reports
+not-found for a slot that holds 5 at block 0. -/
+theorem new_system_asFound_counterexample :
+    (run (newBackend Cfg.asFound) (Node.init (newBackend Cfg.asFound)) drainHistory).map
+      (fun nd => (nd.read (newBackend Cfg.asFound) (.num 0) (.storage 1 2), (absAt nd.chain 0).stor 1 2)) =
+      some (some .notfound, 5) := by decide
+
+/-! ### non-vacuity: the hypotheses are satisfiable by histories that exercise the encodings -/
+
+/-- deploy + write, overwrite + nonce, replace class, revert, write again: runs, is well-formed,
+and its historical answers differ from the head's -/
+def exampleHistory : List Op :=
+  [.store 1 { Diff.empty with storage := [(0x104, [(2, 5)])], deployed := [(0x104, 0xc000)], declared0 := [0xd100] },
+   .store 2 { Diff.empty with storage := [(0x104, [(2, 6), (3, 0)])], nonces := [(0x104, 1)] },
+   .store 3 { Diff.empty with replaced := [(0x104, 0xc001)], storage := [(1, [(7, 9)])] },
+   .revert,
+   .store 4 { Diff.empty with storage := [(0x104, [(2, 0)])], nonces := [(0x104, 2)] }]
+
+/-- the example history meets the well-formedness hypothesis -/
+example : OpsWF exampleHistory := by
+  intro id d hm
+  apply Diff.wfb_sound
+  simp only [exampleHistory, List.mem_cons, List.not_mem_nil, or_false, Op.store.injEq, reduceCtorEq, false_or] at hm
+  rcases hm with h | h | h | h <;> (obtain ⟨_, rfl⟩ := h; decide)
+
+example : (run (newBackend Cfg.repaired) (Node.init (newBackend Cfg.repaired)) exampleHistory).map
+    (fun nd => (nd.blocks.length,
+      [nd.read (newBackend Cfg.repaired) (.num 0) (.storage 0x104 2),
+       nd.read (newBackend Cfg.repaired) (.num 1) (.storage 0x104 2),
+       nd.read (newBackend Cfg.repaired) .head (.storage 0x104 2),
+       nd.read (newBackend Cfg.repaired) (.num 0) (.nonce 0x104),
+       nd.read (newBackend Cfg.repaired) (.num 0) (.classHash 0x105),
+       nd.read (newBackend Cfg.repaired) (.hash 3) (.nonce 0x104)])) =
+    some (3, [some (.ok 5), some (.ok 6), some (.ok 0), some (.ok 0), some .notfound, none]) := by decide
+
+example : (run legacyBackend (Node.init legacyBackend) exampleHistory).map
+    (fun nd => (nd.blocks.length,
+      [nd.read legacyBackend (.num 0) (.storage 0x104 2),
+       nd.read legacyBackend (.num 1) (.storage 0x104 2),
+       nd.read legacyBackend .head (.storage 0x104 2),
+       nd.read legacyBackend (.num 0) (.nonce 0x104),
+       nd.read legacyBackend (.num 0) (.classHash 0x105),
+       nd.read legacyBackend (.hash 3) (.nonce 0x104)])) =
+    some (3, [some (.ok 5), some (.ok 6), some (.ok 0), some (.ok 0), some .notfound, none]) := by decide
 
 end Juno.C03.Props
